@@ -7,6 +7,7 @@ import (
 	"go/parser"
 	"go/printer"
 	"go/token"
+	"os"
 	"regexp"
 	"strconv"
 	"strings"
@@ -23,7 +24,15 @@ import (
 
 // arm templates: the case body printed by go/printer with all white space collapsed; $X are placeholders
 // for identifiers. The shape code is what the Coq model dispatches on.
-type armTemplate struct {
+// prattRepoRoot is the tree the translator reads (VERIF_REPO, default /repo)
+var prattRepoRoot = func() string {
+	if r := os.Getenv("VERIF_REPO"); r != "" {
+		return r
+	}
+	return "/repo"
+}()
+
+type prattArmTemplate struct {
 	shape  int
 	name   string
 	text   string
@@ -31,73 +40,73 @@ type armTemplate struct {
 }
 
 const (
-	shapeBinary   = 1
-	shapeCompare  = 2
-	shapeCoalesce = 3
-	shapeDot      = 4
-	shapeIndex    = 5
-	shapeCall     = 6
-	shapePostfix  = 7
-	shapeCond     = 8
-	shapeComma    = 9
-	shapeOutside  = 0
+	prattShapeBinary   = 1
+	prattShapeCompare  = 2
+	prattShapeCoalesce = 3
+	prattShapeDot      = 4
+	prattShapeIndex    = 5
+	prattShapeCall     = 6
+	prattShapePostfix  = 7
+	prattShapeCond     = 8
+	prattShapeComma    = 9
+	prattShapeOutside  = 0
 
-	pshapeUnary   = 1
-	pshapeLiteral = 2
-	pshapeGroup   = 3
+	prattPshapeUnary   = 1
+	prattPshapeLiteral = 2
+	prattPshapeGroup   = 3
 )
 
-var suffixTemplates = []armTemplate{
-	{shapeBinary, "binary",
+var prattSuffixTemplates = []prattArmTemplate{
+	{prattShapeBinary, "binary",
 		`if $L < prec { return left } else if precLeft < $R { p.fail("expression") return nil } p.next() left = &BinaryExpr{tt, left, p.parseExpression($S)} precLeft = $N`,
 		[]string{"L", "R", "S", "N"}},
-	{shapeCompare, "compare",
+	{prattShapeCompare, "compare",
 		`if $L < prec || !p.in && tt == $T { return left } else if precLeft < $R { p.fail("expression") return nil } p.next() left = &BinaryExpr{tt, left, p.parseExpression($S)} precLeft = $N`,
 		[]string{"L", "R", "S", "N", "T"}},
-	{shapeCoalesce, "coalesce",
+	{prattShapeCoalesce, "coalesce",
 		`if $L < prec { return left } else if precLeft < $R && precLeft != $X { p.fail("expression") return nil } p.next() left = &BinaryExpr{tt, left, p.parseExpression($S)} precLeft = $N`,
 		[]string{"L", "R", "X", "S", "N"}},
-	{shapeDot, "dot",
+	{prattShapeDot, "dot",
 		`if precLeft < $R { p.fail("expression") return nil } else if $C < precLeft { precLeft = $C } p.next() if !IsIdentifierName(p.tt) && p.tt != PrivateIdentifierToken { p.fail("dot expression", IdentifierToken) return nil } if p.tt == PrivateIdentifierToken { left = &DotExpr{left, p.scope.Use(p.data), precLeft, false} } else { left = &DotExpr{left, LiteralExpr{IdentifierToken, p.data}, precLeft, false} } p.next()`,
 		[]string{"R", "C"}},
-	{shapeIndex, "index",
+	{prattShapeIndex, "index",
 		`if precLeft < $R { p.fail("expression") return nil } else if $C < precLeft { precLeft = $C } p.next() prevIn := p.in p.in = true left = &IndexExpr{left, p.parseExpression($S), precLeft, false} p.in = prevIn if !p.consume("index expression", CloseBracketToken) { return nil }`,
 		[]string{"R", "C", "S"}},
-	{shapeCall, "call",
+	{prattShapeCall, "call",
 		`if $L < prec { return left } else if precLeft < $R { p.fail("expression") return nil } else if $C < precLeft { precLeft = $C } prevIn := p.in p.in = true left = &CallExpr{left, p.parseArguments(), precLeft, false} p.in = prevIn`,
 		[]string{"L", "R", "C"}},
-	{shapePostfix, "postfix",
+	{prattShapePostfix, "postfix",
 		`if p.prevLT || $L < prec { return left } else if precLeft < $R { p.fail("expression") return nil } p.next() left = &UnaryExpr{$O, left} precLeft = $N`,
 		[]string{"L", "R", "O", "N"}},
-	{shapeCond, "cond",
+	{prattShapeCond, "cond",
 		`if $L < prec { return left } else if precLeft < $R { p.fail("expression") return nil } p.next() prevIn := p.in p.in = true ifExpr := p.parseExpression($S) p.in = prevIn if !p.consume("conditional expression", ColonToken) { return nil } elseExpr := p.parseExpression($E) left = &CondExpr{left, ifExpr, elseExpr} precLeft = $N`,
 		[]string{"L", "R", "S", "E", "N"}},
-	{shapeComma, "comma",
+	{prattShapeComma, "comma",
 		`if $L < prec { return left } p.next() if commaExpr, ok := left.(*CommaExpr); ok { commaExpr.List = append(commaExpr.List, p.parseExpression($S)) i-- } else { left = &CommaExpr{[]IExpr{left, p.parseExpression($S)}} } precLeft = $N`,
 		[]string{"L", "S", "N"}},
 }
 
 // arms of parseExpressionSuffix that are outside the modelled fragment (first token of the case list)
-var suffixOutside = map[string]string{
+var prattSuffixOutside = map[string]string{
 	"TemplateToken": "tagged template",
 	"OptChainToken": "optional chaining",
 	"ArrowToken":    "identifier arrow function",
 }
 
-var prefixTemplates = []armTemplate{
-	{pshapeUnary, "unary",
+var prattPrefixTemplates = []prattArmTemplate{
+	{prattPshapeUnary, "unary",
 		`if $G < prec { p.fail("expression") return nil } p.next() left = &UnaryExpr{$O, p.parseExpression($S)} precLeft = $N`,
 		[]string{"G", "O", "S", "N"}},
-	{pshapeLiteral, "literal",
+	{prattPshapeLiteral, "literal",
 		`left = &LiteralExpr{p.tt, p.data} p.next()`,
 		nil},
-	{pshapeGroup, "group",
+	{prattPshapeGroup, "group",
 		`if $G < prec { p.next() prevIn := p.in p.in = true left = &GroupExpr{p.parseExpression($S)} p.in = prevIn if !p.consume("expression", CloseParenToken) { return nil } break } suffix := p.parseParenthesizedExpression(prec, nil) p.exprLevel-- return suffix`,
 		[]string{"G", "S"}},
 }
 
 // arms of parseExpression that are outside the modelled fragment
-var prefixOutside = map[string]string{
+var prattPrefixOutside = map[string]string{
 	"OpenBracketToken":       "array literal",
 	"OpenBraceToken":         "object literal",
 	"AwaitToken":             "await expression / identifier",
@@ -113,29 +122,29 @@ var prefixOutside = map[string]string{
 }
 
 // the statements of parseExpression before its switch (depth guard, regexp re-lex, identifier and numeric arms)
-const prefixPrologue = `p.exprLevel++ if NestedExprLimit < p.exprLevel { p.failMessage("too many nested expressions") return nil } if p.tt == DivToken || p.tt == DivEqToken { p.tt, p.data = p.l.RegExp() if p.tt == ErrorToken { p.fail("regular expression") return nil } } var left IExpr precLeft := $P if IsIdentifier(p.tt) && p.tt != AsyncToken { left = p.scope.Use(p.data) p.next() suffix := p.parseExpressionSuffix(left, prec, precLeft) p.exprLevel-- return suffix } else if IsNumeric(p.tt) { left = &LiteralExpr{p.tt, p.data} p.next() suffix := p.parseExpressionSuffix(left, prec, precLeft) p.exprLevel-- return suffix }`
+const prattPrefixPrologue = `p.exprLevel++ if NestedExprLimit < p.exprLevel { p.failMessage("too many nested expressions") return nil } if p.tt == DivToken || p.tt == DivEqToken { p.tt, p.data = p.l.RegExp() if p.tt == ErrorToken { p.fail("regular expression") return nil } } var left IExpr precLeft := $P if IsIdentifier(p.tt) && p.tt != AsyncToken { left = p.scope.Use(p.data) p.next() suffix := p.parseExpressionSuffix(left, prec, precLeft) p.exprLevel-- return suffix } else if IsNumeric(p.tt) { left = &LiteralExpr{p.tt, p.data} p.next() suffix := p.parseExpressionSuffix(left, prec, precLeft) p.exprLevel-- return suffix }`
 
-const prefixEpilogue = `suffix := p.parseExpressionSuffix(left, prec, precLeft) p.exprLevel-- return suffix`
+const prattPrefixEpilogue = `suffix := p.parseExpressionSuffix(left, prec, precLeft) p.exprLevel-- return suffix`
 
-const prefixDefault = `p.fail("expression") return nil`
+const prattPrefixDefault = `p.fail("expression") return nil`
 
-const argumentsBody = `p.next() args.List = make([]Arg, 0, 4) for p.tt != CloseParenToken && p.tt != ErrorToken { rest := p.tt == EllipsisToken if rest { p.next() } args.List = append(args.List, Arg{ Value: p.parseExpression($S), Rest: rest, }) if p.tt != CloseParenToken { if p.tt != CommaToken { p.fail("arguments", CommaToken, CloseParenToken) return } else { p.next() } } } p.consume("arguments", CloseParenToken) return`
+const prattArgumentsBody = `p.next() args.List = make([]Arg, 0, 4) for p.tt != CloseParenToken && p.tt != ErrorToken { rest := p.tt == EllipsisToken if rest { p.next() } args.List = append(args.List, Arg{ Value: p.parseExpression($S), Rest: rest, }) if p.tt != CloseParenToken { if p.tt != CommaToken { p.fail("arguments", CommaToken, CloseParenToken) return } else { p.next() } } } p.consume("arguments", CloseParenToken) return`
 
-var placeholderRe = regexp.MustCompile(`\\\$[A-Z]`)
+var prattPlaceholderRe = regexp.MustCompile(`\\\$[A-Z]`)
 
-func compileTemplate(text string) (*regexp.Regexp, []string) {
+func prattCompileTemplate(text string) (*regexp.Regexp, []string) {
 	qm := regexp.QuoteMeta(text)
 	var names []string
-	rx := placeholderRe.ReplaceAllStringFunc(qm, func(s string) string {
+	rx := prattPlaceholderRe.ReplaceAllStringFunc(qm, func(s string) string {
 		names = append(names, s[2:])
 		return `(\w+)`
 	})
 	return regexp.MustCompile("^" + rx + "$"), names
 }
 
-// matchTemplate returns placeholder -> identifier; repeated placeholders must agree.
-func matchTemplate(text, src string) (map[string]string, bool) {
-	re, names := compileTemplate(text)
+// prattMatchTemplate returns placeholder -> identifier; repeated placeholders must agree.
+func prattMatchTemplate(text, src string) (map[string]string, bool) {
+	re, names := prattCompileTemplate(text)
 	m := re.FindStringSubmatch(src)
 	if m == nil {
 		return nil, false
@@ -150,7 +159,7 @@ func matchTemplate(text, src string) (map[string]string, bool) {
 	return out, true
 }
 
-func printStmts(fset *token.FileSet, stmts []ast.Stmt) string {
+func prattPrintStmts(fset *token.FileSet, stmts []ast.Stmt) string {
 	var sb strings.Builder
 	for _, s := range stmts {
 		var b bytes.Buffer
@@ -161,8 +170,8 @@ func printStmts(fset *token.FileSet, stmts []ast.Stmt) string {
 	return strings.Join(strings.Fields(sb.String()), " ")
 }
 
-// constBlocks evaluates `Name T = base + iota` blocks of one type.
-func constBlocks(path, typ string) ([]string, map[string]int, error) {
+// prattConstBlocks evaluates `Name T = base + iota` blocks of one type.
+func prattConstBlocks(path, typ string) ([]string, map[string]int, error) {
 	fset := token.NewFileSet()
 	f, err := parser.ParseFile(fset, path, nil, 0)
 	if err != nil {
@@ -221,7 +230,7 @@ func constBlocks(path, typ string) ([]string, map[string]int, error) {
 	return order, vals, nil
 }
 
-func findMethod(f *ast.File, name string) *ast.FuncDecl {
+func prattFindMethod(f *ast.File, name string) *ast.FuncDecl {
 	for _, d := range f.Decls {
 		if fd, ok := d.(*ast.FuncDecl); ok && fd.Recv != nil && fd.Name.Name == name {
 			return fd
@@ -237,7 +246,7 @@ type prattRow struct {
 	what   string
 }
 
-func caseTokens(cc *ast.CaseClause) ([]string, error) {
+func prattCaseTokens(cc *ast.CaseClause) ([]string, error) {
 	var out []string
 	for _, e := range cc.List {
 		id, ok := e.(*ast.Ident)
@@ -249,12 +258,12 @@ func caseTokens(cc *ast.CaseClause) ([]string, error) {
 	return out, nil
 }
 
-func matchArms(fset *token.FileSet, sw *ast.SwitchStmt, templates []armTemplate, outside map[string]string, defaultText, where string) ([]prattRow, error) {
+func prattMatchArms(fset *token.FileSet, sw *ast.SwitchStmt, templates []prattArmTemplate, outside map[string]string, defaultText, where string) ([]prattRow, error) {
 	var rows []prattRow
 	seenDefault := false
 	for _, s := range sw.Body.List {
 		cc := s.(*ast.CaseClause)
-		body := printStmts(fset, cc.Body)
+		body := prattPrintStmts(fset, cc.Body)
 		if cc.List == nil {
 			seenDefault = true
 			if body != defaultText {
@@ -262,13 +271,13 @@ func matchArms(fset *token.FileSet, sw *ast.SwitchStmt, templates []armTemplate,
 			}
 			continue
 		}
-		toks, err := caseTokens(cc)
+		toks, err := prattCaseTokens(cc)
 		if err != nil {
 			return nil, fmt.Errorf("%s: %v", where, err)
 		}
 		matched := false
 		for _, t := range templates {
-			if m, ok := matchTemplate(t.text, body); ok {
+			if m, ok := prattMatchTemplate(t.text, body); ok {
 				r := prattRow{shape: t.shape, toks: toks, what: t.name}
 				for _, p := range t.params {
 					r.params = append(r.params, m[p])
@@ -282,7 +291,7 @@ func matchArms(fset *token.FileSet, sw *ast.SwitchStmt, templates []armTemplate,
 			continue
 		}
 		if why, ok := outside[toks[0]]; ok {
-			rows = append(rows, prattRow{shape: shapeOutside, toks: toks, what: "outside the fragment: " + why})
+			rows = append(rows, prattRow{shape: prattShapeOutside, toks: toks, what: "outside the fragment: " + why})
 			continue
 		}
 		return nil, fmt.Errorf("%s: arm `case %s` has an unrecognised shape: %s", where, strings.Join(toks, ", "), trunc(body, 400))
@@ -294,11 +303,11 @@ func matchArms(fset *token.FileSet, sw *ast.SwitchStmt, templates []armTemplate,
 }
 
 func genPratt(out string) error {
-	precOrder, precVals, err := constBlocks("/repo/js/table.go", "OpPrec")
+	precOrder, precVals, err := prattConstBlocks(prattRepoRoot+"/js/table.go", "OpPrec")
 	if err != nil {
 		return err
 	}
-	ttOrder, ttVals, err := constBlocks("/repo/js/tokentype.go", "TokenType")
+	ttOrder, ttVals, err := prattConstBlocks(prattRepoRoot+"/js/tokentype.go", "TokenType")
 	if err != nil {
 		return err
 	}
@@ -315,13 +324,13 @@ func genPratt(out string) error {
 	}
 
 	fset := token.NewFileSet()
-	f, err := parser.ParseFile(fset, "/repo/js/parse.go", nil, 0)
+	f, err := parser.ParseFile(fset, prattRepoRoot+"/js/parse.go", nil, 0)
 	if err != nil {
 		return err
 	}
 
 	// ---- parseExpressionSuffix
-	fd := findMethod(f, "parseExpressionSuffix")
+	fd := prattFindMethod(f, "parseExpressionSuffix")
 	if fd == nil {
 		return fmt.Errorf("parse.go: parseExpressionSuffix not found")
 	}
@@ -332,20 +341,20 @@ func genPratt(out string) error {
 	if !ok || len(loop.Body.List) != 2 {
 		return fmt.Errorf("parseExpressionSuffix: expected `for i := 0; ; i++ { <depth guard>; switch ... }`")
 	}
-	if g := printStmts(fset, loop.Body.List[:1]); g != `if 1000 < p.exprLevel+i { p.failMessage("too many nested expressions") return nil }` {
+	if g := prattPrintStmts(fset, loop.Body.List[:1]); g != `if 1000 < p.exprLevel+i { p.failMessage("too many nested expressions") return nil }` {
 		return fmt.Errorf("parseExpressionSuffix: unexpected depth guard %q", g)
 	}
 	sw, ok := loop.Body.List[1].(*ast.SwitchStmt)
-	if !ok || printStmts(fset, []ast.Stmt{sw.Init}) != "tt := p.tt" {
+	if !ok || prattPrintStmts(fset, []ast.Stmt{sw.Init}) != "tt := p.tt" {
 		return fmt.Errorf("parseExpressionSuffix: expected `switch tt := p.tt; tt`")
 	}
-	srows, err := matchArms(fset, sw, suffixTemplates, suffixOutside, "return left", "parseExpressionSuffix")
+	srows, err := prattMatchArms(fset, sw, prattSuffixTemplates, prattSuffixOutside, "return left", "parseExpressionSuffix")
 	if err != nil {
 		return err
 	}
 
 	// ---- parseExpression
-	fd = findMethod(f, "parseExpression")
+	fd = prattFindMethod(f, "parseExpression")
 	if fd == nil {
 		return fmt.Errorf("parse.go: parseExpression not found")
 	}
@@ -357,29 +366,29 @@ func genPratt(out string) error {
 			psw, swAt = x, i
 		}
 	}
-	if psw == nil || printStmts(fset, []ast.Stmt{psw.Init}) != "tt := p.tt" {
+	if psw == nil || prattPrintStmts(fset, []ast.Stmt{psw.Init}) != "tt := p.tt" {
 		return fmt.Errorf("parseExpression: expected `switch tt := p.tt; tt`")
 	}
-	pro, ok := matchTemplate(prefixPrologue, printStmts(fset, fd.Body.List[:swAt]))
+	pro, ok := prattMatchTemplate(prattPrefixPrologue, prattPrintStmts(fset, fd.Body.List[:swAt]))
 	if !ok {
-		return fmt.Errorf("parseExpression: the statements before the switch changed: %s", trunc(printStmts(fset, fd.Body.List[:swAt]), 600))
+		return fmt.Errorf("parseExpression: the statements before the switch changed: %s", trunc(prattPrintStmts(fset, fd.Body.List[:swAt]), 600))
 	}
-	if e := printStmts(fset, fd.Body.List[swAt+1:n]); e != prefixEpilogue {
+	if e := prattPrintStmts(fset, fd.Body.List[swAt+1:n]); e != prattPrefixEpilogue {
 		return fmt.Errorf("parseExpression: the statements after the switch changed: %s", e)
 	}
-	prows, err := matchArms(fset, psw, prefixTemplates, prefixOutside, prefixDefault, "parseExpression")
+	prows, err := prattMatchArms(fset, psw, prattPrefixTemplates, prattPrefixOutside, prattPrefixDefault, "parseExpression")
 	if err != nil {
 		return err
 	}
 
 	// ---- parseArguments
-	fd = findMethod(f, "parseArguments")
+	fd = prattFindMethod(f, "parseArguments")
 	if fd == nil {
 		return fmt.Errorf("parse.go: parseArguments not found")
 	}
-	am, ok := matchTemplate(argumentsBody, printStmts(fset, fd.Body.List))
+	am, ok := prattMatchTemplate(prattArgumentsBody, prattPrintStmts(fset, fd.Body.List))
 	if !ok {
-		return fmt.Errorf("parseArguments changed: %s", trunc(printStmts(fset, fd.Body.List), 600))
+		return fmt.Errorf("parseArguments changed: %s", trunc(prattPrintStmts(fset, fd.Body.List), 600))
 	}
 
 	// ---- emit
